@@ -241,6 +241,60 @@ def main(run):
             run.nontriv(("river", kind, batch, len(seen_labels)))
         if len(run.samples) < 3 and kind == "str":
             run.sample({"wrapper": "river", "output_kind": kind, "labels_seen_in_order": seen_labels, "last_result": got})
+    # ---------------- ONE long-lived wrapper object: output width that changes between calls (a classifier refitted after a new
+    # class appeared), and large batches (chunking thresholds): the canonical form is a function of THIS call's output only
+    big_ns = [255, 256, 257, 511, 513, 700, 1000] + ([1025, 4097, 9000] if thorough else [1025])
+    for wrapper_kind in ("sklearn", "torch"):
+        state = {"c": 2}
+        seen = []
+
+        def pf_var(arr):
+            arr = np.asarray(arr, dtype=float)
+            seen.append(arr.shape)
+            c_ = state["c"]
+            out = np.stack([np.array([float(np.dot(r, np.arange(1, r.shape[0] + 1))) * (k + 1) + k for k in range(c_)]) for r in arr])
+            return out[:, 0] if state.get("flat") else out
+        if wrapper_kind == "sklearn":
+            w = SklearnWrapper(pf_var)
+        else:
+            w = TorchWrapper(lambda t: torch.as_tensor(pf_var(t.numpy())))
+        widths = [2, 2, 4, 3, 1, 5, 2, 7, 1, 3] + [rnd.choice([1, 2, 3, 6]) for _ in range(10)]
+        for ci, c_ in enumerate(widths):
+            state["c"], state["flat"] = c_, (c_ == 1 and ci % 2 == 0)
+            n = rnd.choice([1, 1, 2, 5]) if ci % 3 else rnd.choice(big_ns)
+            xs = [rand_x() for _ in range(n)]
+            exps = [canon_row([float(np.dot([xi[f] for f in feats], np.arange(1, 5))) * (k + 1) + k for k in range(c_)]) for xi in xs]
+            replay = {"wrapper": wrapper_kind, "one_wrapper_object": True, "widths_so_far": widths[:ci + 1], "n": n}
+            try:
+                got = [w(xs[0])] if n == 1 and ci % 2 else w(list(xs))
+            except Exception as ex:
+                run.ok(kind="long-lived-wrapper")
+                run.violation("batch-input-raises", f"{wrapper_kind} wrapper reused, width {c_}, n={n}: {type(ex).__name__}: {ex}", replay)
+                continue
+            run.ok(kind="long-lived-wrapper")
+            if not isinstance(got, list) or len(got) != n:
+                run.violation("batch-row-form", f"{wrapper_kind} wrapper, batch of {n} dicts: {len(got) if isinstance(got, list) else type(got).__name__} output dicts", replay)
+            elif not all(eq_out(a, b) for a, b in zip(got, exps)):
+                bad_i = next(i for i, (a, b) in enumerate(zip(got, exps)) if not eq_out(a, b))
+                run.violation("vector-output-form" if c_ > 1 else "size-one-output-label",
+                              f"{wrapper_kind} wrapper object reused over outputs of width {widths[:ci + 1]}: row {bad_i} of {n} is {got[bad_i]!r}, canonical form {exps[bad_i]!r}", replay)
+            run.nontriv(("long-lived", wrapper_kind, c_, n))
+    try:
+        from sklearn.naive_bayes import GaussianNB
+        nb = GaussianNB()
+        wnb = SklearnWrapper(nb.predict_proba)
+        X2 = np.array([[0.0, 0.0], [1.0, 1.0], [0.2, 0.1], [0.9, 1.2]])
+        nb.fit(X2, [0, 1, 0, 1])
+        r2 = wnb({"a": 0.1, "b": 0.2})
+        nb.fit(np.vstack([X2, [[5.0, 5.0], [5.5, 4.5]]]), [0, 1, 0, 1, 2, 2])
+        r3 = wnb({"a": 0.1, "b": 0.2})
+        own = nb.predict_proba(np.array([[0.1, 0.2]]))[0]
+        run.ok(2, kind="long-lived-wrapper")
+        if sorted(r2) != [0, 1] or sorted(r3) != [0, 1, 2] or any(float(r3[i]) != float(own[i]) for i in range(3)):
+            run.violation("vector-output-form", f"SklearnWrapper(GaussianNB.predict_proba) reused after a refit with a third class: {r2!r} then {r3!r}, "
+                                                f"the model's own row {own!r}", {"wrapper": "sklearn", "refit_with_new_class": True})
+    except ImportError:
+        pass
     # ---------------- dispatch
     for W in (SklearnWrapper(lambda a: np.array([1.0])), RiverWrapper(lambda x: 1.0), TorchWrapper(lambda t: t.sum())):
         run.ok(kind="dispatch")
